@@ -1,9 +1,7 @@
 package vproof
 
 import (
-	"encoding/json"
 	"fmt"
-	"os"
 	"math/big"
 	"math/rand/v2"
 	"sort"
@@ -27,16 +25,27 @@ type reporter struct {
 	seen map[string]int
 }
 
+// want reports whether a further witness of this class would still be written out
+// (callers use it to skip building expensive witness objects).
+func (rp *reporter) want(class string) bool {
+	rp.mu.Lock()
+	defer rp.mu.Unlock()
+	return rp.seen[class] < 3
+}
+
+func (rp *reporter) count(class string) {
+	rp.r.Count("violating_observations["+class+"]", 1)
+	rp.mu.Lock()
+	rp.seen[class]++
+	rp.mu.Unlock()
+}
+
 func (rp *reporter) viol(class string, idx int, brief string, w any) {
 	rp.r.Count("violating_observations["+class+"]", 1)
 	rp.mu.Lock()
 	n := rp.seen[class]
 	rp.seen[class] = n + 1
 	rp.mu.Unlock()
-	if d := os.Getenv("VERIF_C10_DUMP"); d != "" && n < 2 {
-		b, _ := json.MarshalIndent(map[string]any{"class": class, "case": idx, "brief": brief, "witness": w}, "", " ")
-		os.WriteFile(fmt.Sprintf("%s/%03d-%d.json", d, idx, n)+"."+fmt.Sprint(len(class)), b, 0o644)
-	}
 	if n >= 3 {
 		return
 	}
